@@ -229,7 +229,7 @@ func c01One(c *vk.Ctx, prop string, e reg.Entry, idx []int, id string) uint64 {
 				}
 				ac, ok := unwrapAuto(res[0].Data)
 				if ok {
-					if aw, err := reg.Wrap(ac, e.Label); err == nil && hasRow(ac) {
+					if aw, err := reg.WrapAs(ac, col.T, e.Label); err == nil && hasRow(ac) {
 						if got := rowsCanonAs(aw, fresh); got != nil && !refcol.Equal(anyList(got), anyList(want)) {
 							fail("auto-decode-values", fmt.Sprintf("rev %d: inferred column holds %s, appended %s", rev, refcol.Show(anyList(got)), refcol.Show(anyList(want))))
 							return
@@ -279,7 +279,7 @@ func rowsCanonAs(inferred, typed *reg.Col) (out []any) {
 
 // C01 — block encode -> decode is the identity for every column type and nesting.
 func C01(c *vk.Ctx) {
-	c.Rule("every column composition of the generated registry (45 base columns; Array / Nullable / LowCardinality / Map(String,.) / Map(.,String) / Tuple(.,String) wrappers wherever the exported generic constructors type-check, to depth 2) x every value sequence of length <= L (quick 2, thorough 3) over the per-type boundary alphabet (0, +-1, min, max, NaN/Inf/-0/denormal, strings of 0/1/127/128 bytes, nulls, empty and nested arrays, range ends of the date types) x revisions {54460, 54453, 51902} x output buffer {empty, 1 byte, 9 bytes pre-filled}; plus size-triggered cases (LowCardinality dictionaries of 254..257 and 65534..65537 distinct values, strings of 16383/16384 bytes). Oracles: typed decode into a fresh column, typed decode of the same contents as the reference server writes them (LowCardinality keys of 8, 16 and 64 bits), decode through Results.Auto where ColAuto.Infer accepts the type, independent reference decode (refcol) with exact consumption, buffer independence, re-encode equality, WriteBlock+Flush = EncodeBlock; the same run in the purego build must produce the same transcript. distinct_nontrivial = (composition, value sequence) cases with at least one row.")
+	c.Rule("every column composition of the generated registry (45 base columns; Array / Nullable / LowCardinality / Map(String,.) / Map(.,String) / Tuple(.,String) wrappers wherever the exported generic constructors type-check, to depth 2) x every value sequence of length <= L (quick 2, thorough 3) over the per-type boundary alphabet (0, +-1, min, max, NaN/Inf/-0/denormal, strings of 0/1/127/128 bytes, nulls, empty and nested arrays, range ends of the date types) x revisions {54460, 54453, 51902} x output buffer {empty, 1 byte, 9 bytes pre-filled}; plus size-triggered cases (LowCardinality dictionaries of 254..257 and 65534..65537 distinct values, strings of 16383 / 16384 / 2^20-1 / 2^20 / 2^20+1 / 2^21-1 / 2^21 bytes in String, Array(String), LowCardinality(String) and Nullable(String), decoded into a fresh and into a used-and-Reset column). Oracles: typed decode into a fresh column, typed decode of the same contents as the reference server writes them (LowCardinality keys of 8, 16 and 64 bits), decode through Results.Auto where ColAuto.Infer accepts the type, independent reference decode (refcol) with exact consumption, buffer independence, re-encode equality, WriteBlock+Flush = EncodeBlock; the same run in the purego build must produce the same transcript. distinct_nontrivial = (composition, value sequence) cases with at least one row.")
 	L := 2
 	if !c.Quick() {
 		L = 3
@@ -407,25 +407,88 @@ func c01Sizes(c *vk.Ctx) {
 			c.DistinctN(1)
 		}
 	}
-	// long strings around the 2-byte / 3-byte varint boundary
-	if c.Shard == 0 || c.Only != "" {
-		for _, ln := range []int{16383, 16384, 2097151, 2097152} {
-			id := fmt.Sprintf("size/String/len=%d", ln)
+	// long strings around the 2-byte / 3-byte varint boundaries and around the 1 MiB step in
+	// which the readers allocate strings whose length came from the wire; in four carriers;
+	// decoded into a fresh column and into a used and Reset one
+	type carrier struct {
+		label string
+		mk    func() proto.Column
+		fill  func(col proto.Column, s string)
+		want  func(s string) []any
+	}
+	carriers := []carrier{
+		{"String", func() proto.Column { return new(proto.ColStr) },
+			func(col proto.Column, s string) { col.(*proto.ColStr).Append(s); col.(*proto.ColStr).Append("tail") },
+			func(s string) []any { return []any{[]byte(s), []byte("tail")} }},
+		{"Array(String)", func() proto.Column { return proto.NewArray[string](new(proto.ColStr)) },
+			func(col proto.Column, s string) { col.(*proto.ColArr[string]).Append([]string{"head", s}) },
+			func(s string) []any { return []any{[]any{[]byte("head"), []byte(s)}} }},
+		{"LowCardinality(String)", func() proto.Column { return proto.NewLowCardinality[string](new(proto.ColStr)) },
+			func(col proto.Column, s string) {
+				lc := col.(*proto.ColLowCardinality[string])
+				lc.Append("k")
+				lc.Append(s)
+				lc.Append("k")
+			},
+			func(s string) []any { return []any{[]byte("k"), []byte(s), []byte("k")} }},
+		{"Nullable(String)", func() proto.Column { return proto.NewColNullable[string](new(proto.ColStr)) },
+			func(col proto.Column, s string) {
+				nc := col.(*proto.ColNullable[string])
+				nc.Append(proto.Null[string]())
+				nc.Append(proto.NewNullable(s))
+			},
+			func(s string) []any { return []any{nil, []byte(s)} }},
+	}
+	k := int64(0)
+	for _, cr := range carriers {
+		for _, ln := range []int{16383, 16384, 1048575, 1048576, 1048577, 2097151, 2097152} {
+			k++
+			id := fmt.Sprintf("size/%s/len=%d", cr.label, ln)
 			if c.Only != "" && c.Only != id {
 				continue
 			}
-			col := new(proto.ColStr)
-			s := strings.Repeat("x", ln)
-			col.Append(s)
-			col.Append("tail")
-			b, err := encodeBlock1(col, "col", 54460, nil)
-			r := refwire.NewR(b)
-			_, _, cols := refcol.DecodeBlockBody(r, 54460)
-			fresh := new(proto.ColStr)
-			var db proto.Block
-			derr := db.DecodeBlock(proto.NewReader(bytes.NewReader(b)), 54460, proto.Results{{Name: "col", Data: fresh}})
-			if err != nil || r.Err != nil || r.Left() != 0 || len(cols) != 1 || len(cols[0].Vals) != 2 || len(cols[0].Vals[0].([]byte)) != ln || derr != nil || fresh.Rows() != 2 || fresh.Row(0) != s || fresh.Row(1) != "tail" {
-				c.Violation("C01/size/long-string", id, fmt.Sprintf("string of %d bytes does not round-trip (enc %v ref %v dec %v)", ln, err, r.Err, derr), nil)
+			if c.Only == "" && !c.Mine(k) {
+				continue
+			}
+			c.Current(id)
+			msg, fn := vk.Recover(func() {
+				buf := make([]byte, ln)
+				for i := range buf {
+					buf[i] = byte('a' + i%19)
+				}
+				s := string(buf)
+				col := cr.mk()
+				cr.fill(col, s)
+				want := cr.want(s)
+				b, err := encodeBlock1(col, "col", 54460, nil)
+				if err != nil {
+					c.Violation("C01/size/long-string/encode-error/"+cr.label, id, err.Error(), nil)
+					return
+				}
+				r := refwire.NewR(b)
+				_, _, cols := refcol.DecodeBlockBody(r, 54460)
+				if r.Err != nil || r.Left() != 0 || len(cols) != 1 || !refcol.Equal(anyList(cols[0].Vals), anyList(want)) {
+					c.Violation("C01/size/long-string/reference-values/"+cr.label, id, fmt.Sprintf("string of %d bytes: the wire does not hold the appended values (ref err %v, %d left)", ln, r.Err, r.Left()), nil)
+					return
+				}
+				used := cr.mk()
+				cr.fill(used, "previous contents "+s[:ln/2])
+				used.(proto.Resettable).Reset()
+				for ti, target := range []proto.Column{cr.mk(), used} {
+					var db proto.Block
+					if derr := db.DecodeBlock(proto.NewReader(bytes.NewReader(b)), 54460, proto.Results{{Name: "col", Data: target}}); derr != nil {
+						c.Violation("C01/size/long-string/typed-decode-error/"+cr.label, id, fmt.Sprintf("target %d: %v", ti, derr), nil)
+						return
+					}
+					fw, _ := reg.Wrap(target, cr.label)
+					if got := rowsCanon(fw); !refcol.Equal(anyList(got), anyList(want)) {
+						c.Violation("C01/size/long-string/typed-decode-values/"+cr.label, id, fmt.Sprintf("string of %d bytes does not round-trip into target %d (0 fresh, 1 used and Reset)", ln, ti), nil)
+						return
+					}
+				}
+			})
+			if msg != "" {
+				c.Violation("C01/size/panic/"+cr.label+"/"+fn, id, msg, nil)
 			}
 			c.Eval("size-triggered", 1)
 			c.DistinctN(1)
